@@ -5,6 +5,8 @@ event, prints `<<"TV", json>>` for a violated clause, `<<"TK", json>>` for an
 event matching an open known finding, and `<<"TVDONE", n>>` when every event
 has been consumed.  Verdicts are total: a rejected event never stops the
 batch.  A batch that does not reach TVDONE is a machinery failure.
+Batches are independent and are judged by several TLC processes in parallel
+(each single-worker, as the trace specs require).
 """
 from __future__ import annotations
 
@@ -13,49 +15,58 @@ import os
 import shutil
 import subprocess
 import tempfile
+from concurrent.futures import ThreadPoolExecutor
 from pathlib import Path
 
 from .core import MachineryError
 from .tlc import SPEC, _unescape, java_cmd
 
+PARALLEL = int(os.environ.get("VERIF_TRACE_JVMS", "8"))
 
-def validate(module: str, events: list[dict], batch: int = 5000, heap: str = "3g", timeout: int = 3600) -> list[dict]:
+
+def _run_batch(module: str, scratch: Path, k: int, chunk: list[dict], heap: str, timeout: int) -> list[dict]:
+    tf = scratch / f"trace{k}.ndjson"
+    with open(tf, "w") as f:
+        for i, ev in enumerate(chunk):
+            ev = dict(ev)
+            ev["id"] = k + i
+            f.write(json.dumps(ev) + "\n")
+    cmd = java_cmd(heap) + ["-workers", "1", "-metadir", str(scratch / f"meta{k}"), "-noGenerateSpecTE",
+                            "-config", str(scratch / "Trace.cfg"), module]
+    env = dict(os.environ, TRACE_FILE=str(tf))
+    p = subprocess.run(cmd, cwd=SPEC, capture_output=True, text=True, env=env, timeout=timeout)
+    done = False
+    verdicts = []
+    for line in p.stdout.splitlines():
+        if line.startswith('<<"TVDONE"'):
+            done = True
+        elif line.startswith('<<"TV", "') or line.startswith('<<"TK", "'):
+            tag = line[3:5]
+            payload = json.loads(_unescape(line[len('<<"TV", "') : -len('">>')]))
+            payload["tag"] = tag
+            payload["event"] = chunk[payload["id"] - k]
+            verdicts.append(payload)
+    if not done:
+        raise MachineryError(
+            f"{module} did not consume the whole batch (TLC output tail):\n{p.stdout[-3000:]}\n{p.stderr[-1500:]}"
+        )
+    shutil.rmtree(scratch / f"meta{k}", ignore_errors=True)
+    tf.unlink()
+    return verdicts
+
+
+def validate(module: str, events: list[dict], batch: int = 5000, heap: str = "1g", timeout: int = 3600) -> list[dict]:
     """Return verdict records [{'tag': 'TV'|'TK', 'event': <event>, ...payload}]."""
-    verdicts: list[dict] = []
     if not events:
-        return verdicts
+        return []
     scratch = Path(tempfile.mkdtemp(prefix="verif-trace-"))
     try:
-        cfg = scratch / "Trace.cfg"
-        cfg.write_text("SPECIFICATION Spec\nCHECK_DEADLOCK FALSE\n")
-        for k in range(0, len(events), batch):
-            chunk = events[k : k + batch]
-            tf = scratch / f"trace{k}.ndjson"
-            with open(tf, "w") as f:
-                for i, ev in enumerate(chunk):
-                    ev = dict(ev)
-                    ev["id"] = k + i
-                    f.write(json.dumps(ev) + "\n")
-            cmd = java_cmd(heap) + ["-workers", "1", "-metadir", str(scratch / f"meta{k}"), "-noGenerateSpecTE",
-                                    "-config", str(cfg), module]
-            env = dict(os.environ, TRACE_FILE=str(tf))
-            p = subprocess.run(cmd, cwd=SPEC, capture_output=True, text=True, env=env, timeout=timeout)
-            done = False
-            for line in p.stdout.splitlines():
-                if line.startswith('<<"TVDONE"'):
-                    done = True
-                elif line.startswith('<<"TV", "') or line.startswith('<<"TK", "'):
-                    tag = line[3:5]
-                    payload = json.loads(_unescape(line[len('<<"TV", "') : -len('">>')]))
-                    payload["tag"] = tag
-                    payload["event"] = chunk[payload["id"] - k]
-                    verdicts.append(payload)
-            if not done:
-                raise MachineryError(
-                    f"{module} did not consume the whole batch (TLC output tail):\n{p.stdout[-3000:]}\n{p.stderr[-1500:]}"
-                )
-            shutil.rmtree(scratch / f"meta{k}", ignore_errors=True)
-            tf.unlink()
-        return verdicts
+        (scratch / "Trace.cfg").write_text("SPECIFICATION Spec\nCHECK_DEADLOCK FALSE\n")
+        # balance the batches over the available JVMs
+        per = max(200, min(batch, -(-len(events) // PARALLEL)))
+        jobs = [(k, events[k : k + per]) for k in range(0, len(events), per)]
+        with ThreadPoolExecutor(max_workers=PARALLEL) as pool:
+            results = list(pool.map(lambda j: _run_batch(module, scratch, j[0], j[1], heap, timeout), jobs))
+        return [v for r in results for v in r]
     finally:
         shutil.rmtree(scratch, ignore_errors=True)
